@@ -7,7 +7,7 @@ Bits3 == {128, 192, 256}
 
 KeyT(bits, s) == FillT("seeded", bits \div 8, Seed + s)
 PtLensAll == (0..64) \cup {255, 256, 257, 4095, 4096}
-Det(s) == [mode |-> "det", seed |-> Seed + s]
+Det(s) == [mode |-> "det", seed |-> Seed + s, chunk |-> (s % 4) * 5]      \* chunk > 0: the source answers in short reads
 Sys == [mode |-> "system"]
 
 \* encrypt / decrypt round trip for one key size and plaintext length, with a deterministic and the system source
